@@ -161,7 +161,10 @@ class YamlDocument(HierDictDocument):
 
             ctx.in_document = yaml.load(s, **self.in_kwargs)
 
-        except ParserError as e:
+        except (yaml.YAMLError, UnicodeDecodeError, LookupError) as e:
+            # not only the parser: the reader, the scanner, the composer and
+            # the constructor have their own error classes (all YAMLErrors),
+            # and the bytes may not be in the announced (or any known) charset
             raise Fault('Client.YamlDecodeError', repr(e))
 
     def create_out_string(self, ctx, out_string_encoding='utf8'):
